@@ -70,42 +70,54 @@ func (line *Line) ContainsLine(other *Line) bool {
 	if line == nil || other == nil || line.Empty() || other.Empty() {
 		return false
 	}
-	// locate the first "other" segment that contains the first "line" segment.
-	lineNumSegments := line.NumSegments()
-	segIdx := -1
-	for j := 0; j < lineNumSegments; j++ {
-		if line.SegmentAt(j).ContainsSegment(other.SegmentAt(0)) {
-			segIdx = j
-			break
-		}
-	}
-	if segIdx == -1 {
-		return false
-	}
+	// every "other" segment must be covered by the "line" segments.
 	otherNumSegments := other.NumSegments()
-	for i := 1; i < otherNumSegments; i++ {
-		lineSeg := line.SegmentAt(segIdx)
-		otherSeg := other.SegmentAt(i)
-		if lineSeg.ContainsSegment(otherSeg) {
-			continue
-		}
-		if otherSeg.A == lineSeg.A {
-			// reverse it
-			if segIdx == 0 {
-				return false
-			}
-			segIdx--
-			i--
-		} else if otherSeg.A == lineSeg.B {
-			// forward it
-			if segIdx == lineNumSegments-1 {
-				return false
-			}
-			segIdx++
-			i--
+	for i := 0; i < otherNumSegments; i++ {
+		if !line.containsSegment(other.SegmentAt(i)) {
+			return false
 		}
 	}
 	return true
+}
+
+// containsSegment returns true when seg is fully covered by the segments of
+// the line. It walks from seg.A towards seg.B, each step moving to the farthest
+// end of a line segment that is collinear with seg and covers the current
+// position. The walk ends when seg.B is covered or no progress can be made.
+func (line *Line) containsSegment(seg Segment) bool {
+	if seg.A == seg.B {
+		return line.ContainsPoint(seg.A)
+	}
+	dx, dy := seg.B.X-seg.A.X, seg.B.Y-seg.A.Y
+	// along is the progress of a point in the direction of seg.
+	along := func(p Point) float64 {
+		return (p.X-seg.A.X)*dx + (p.Y-seg.A.Y)*dy
+	}
+	end := along(seg.B)
+	cur, curAt := seg.A, 0.0
+	for {
+		next, nextAt := cur, curAt
+		line.Search(Rect{cur, cur}, func(lseg Segment, _ int) bool {
+			if !lseg.Raycast(cur).On || !seg.CollinearPoint(lseg.A) ||
+				!seg.CollinearPoint(lseg.B) {
+				return true
+			}
+			if at := along(lseg.A); at > nextAt {
+				next, nextAt = lseg.A, at
+			}
+			if at := along(lseg.B); at > nextAt {
+				next, nextAt = lseg.B, at
+			}
+			return nextAt < end
+		})
+		if nextAt >= end {
+			return true
+		}
+		if nextAt == curAt {
+			return false
+		}
+		cur, curAt = next, nextAt
+	}
 }
 
 func (line *Line) IntersectsLine(other *Line) bool {
